@@ -719,6 +719,11 @@ class FxFn(IoFn):
                     self.err("`Err(…)` whose result type cannot be read off the context", e)
                 return k("(Except.error %s : %s)" % (io_paren(v), cf.io_lean_ty(w)), w, e2)
             return self.ev(e.args[0], env, kerr)
+        if "::".join(path) in self.unit.get("abs_ctors", {}) and len(e.args) == 1:
+            opn = self.unit["abs_ctors"]["::".join(path)]
+            self.need_op(opn, e)
+            ret = self.parse_ty(self.ops[opn]["ret"])
+            return self.ev(e.args[0], env, lambda v, t, e2: k("%s %s" % (opn, io_paren(v)), ret, e2))
         if path == ["String", "new"] and not e.args:
             return k("([] : List Nat)", STR, env)
         if path[-2:] == ["mem", "replace"] and len(e.args) == 2:
@@ -1990,6 +1995,94 @@ SELFTEST_UNIT = dict(
              ret="io::Result<()>", outs=["self.writer"], ops=["writeAll"]),
     ])
 
+SELFTEST2_RS = r"""
+pub enum Tag { A, B, }
+
+enum Inner<R> { X(xs::It<R>), Y(ys::It<R>), }
+
+pub fn peek<R: Read>(mut reader: R) -> std::result::Result<(io::Chain<io::Cursor<[u8; 1]>, R>, Tag), (R, io::Error)> {
+    let mut buf = [0];
+    if let Err(err) = reader.read_exact(&mut buf) {
+        return Err((reader, err));
+    }
+    let first = char::from(buf[0]);
+    let chained = io::Cursor::new(buf).chain(reader);
+    match first {
+        'a' | 'A' => Ok((chained, Tag::A)),
+        _ => Ok((chained, Tag::B)),
+    }
+}
+
+impl Holder {
+    fn open(&mut self) -> io::Result<Tag> {
+        if let Some(reader) = mem::replace(&mut self.reader, None) {
+            match peek(reader) {
+                Err((_, err)) if err.kind() == io::ErrorKind::UnexpectedEof => return Ok(Tag::B),
+                Err((_, err)) => return Err(err),
+                Ok((r, Tag::A)) => { self.inner = Some(Inner::X(xs::It::new(r))) }
+                Ok((r, Tag::B)) => { self.inner = Some(Inner::Y(ys::It::new(r))) }
+            }
+        }
+        Ok(Tag::A)
+    }
+
+    fn step(&mut self) -> Option<u8> {
+        match &mut self.inner {
+            Some(Inner::X(it)) => it.next(),
+            Some(Inner::Y(it)) => it.next().map(|b| b),
+            None => None,
+        }
+    }
+}
+"""
+
+SELFTEST2_OPS = {
+    "readExact": dict(method="read_exact", mut=True, args=[dict(ty="[u8; 1]", mut=True)], ret="io::Result<()>",
+                      lean_ty="σ → List Nat → Except IoErr Unit × σ × List Nat"),
+    "chain": dict(ret="Chain", lean_ty="List Nat → σ → χ"),
+    "xNext": dict(method="next", recv="xs::It<R>", mut=True, args=[], ret="Option<u8>", lean_ty="α → Option Nat × α"),
+    "yNext": dict(method="next", recv="ys::It<R>", mut=True, args=[], ret="Option<u8>", lean_ty="β → Option Nat × β"),
+    "xNew": dict(ret="xs::It<R>", lean_ty="χ → α"),
+    "yNew": dict(ret="ys::It<R>", lean_ty="χ → β"),
+}
+SELFTEST2_FIELDS = [("inner", "Option<Inner<R>>"), ("reader", "Option<R>")]
+SELFTEST2_UNIT = dict(
+    name="SrcFxSelfTest2", props="self-test", file="src/selftest.rs", dialect="fx",
+    generics={"R": "σ", "Chain": "χ", "Cursor": "χ", "xs::It": "α", "ys::It": "β"}, io_ops=SELFTEST2_OPS,
+    pinned=["pub enum Tag { A, B, }"], abs_ctors={"xs::It::new": "xNew", "ys::It::new": "yNew"},
+    io_enums={"Tag": dict(variants=[("A", []), ("B", [])]),
+              "Inner": dict(variants=[("X", ["xs::It<R>"]), ("Y", ["ys::It<R>"])], lean="(α ⊕ β)",
+                            ctors={"X": "Sum.inl", "Y": "Sum.inr"})},
+    functions=[
+        dict(name="peek", lean="peek", free=True,
+             header="pub fn peek<R: Read>(mut reader: R) -> std::result::Result<(io::Chain<io::Cursor<[u8; 1]>, R>, Tag), (R, io::Error)>",
+             self_fields=[], params=[("reader", "R")], ret="Result<(io::Chain<io::Cursor<[u8; 1]>, R>, Tag), (R, io::Error)>",
+             outs=[], ops=["readExact", "chain"], locals={"buf": "[u8; 1]"}),
+        dict(name="Holder::open", lean="holderOpen", header="fn open(&mut self) -> io::Result<Tag>", self_fields=SELFTEST2_FIELDS,
+             params=[], ret="io::Result<Tag>", outs=["self.inner", "self.reader"], ops=["readExact", "chain", "xNew", "yNew"],
+             siblings=["peek"]),
+        dict(name="Holder::step", lean="holderStep", header="fn step(&mut self) -> Option<u8>", self_fields=SELFTEST2_FIELDS,
+             params=[], ret="Option<u8>", outs=["self.inner", "self.reader"], ops=["xNext", "yNext"]),
+    ])
+
+SELFTEST2_EVAL = r"""
+open RbV RbV.Rs RbV.Gen.SrcFxSelfTest2
+def rdx : List Nat → List Nat → Except IoErr Unit × List Nat × List Nat := fun s buf =>
+  match s with | [] => (.error ⟨"UnexpectedEof", "eof"⟩, [], buf) | b :: r => (.ok (), r, [b])
+def ch : List Nat → List Nat → List Nat := fun b s => b ++ s
+def nx : List Nat → Option Nat × List Nat := fun l => (l.head?, l.drop 1)
+#eval (holderOpen rdx ch id id (none : Option (List Nat ⊕ List Nat)) (some [65, 7]))
+#eval (holderOpen rdx ch id id (none : Option (List Nat ⊕ List Nat)) (some [9, 7]))
+#eval (holderOpen rdx ch id id (none : Option (List Nat ⊕ List Nat)) (some []))
+#eval (holderStep nx nx (some (Sum.inr [9, 7]) : Option (List Nat ⊕ List Nat)) (none : Option (List Nat)))
+"""
+SELFTEST2_EXPECT = [
+    "Res.ok (Except.ok (RbV.Gen.SrcFxSelfTest2.Tag.A), some (Sum.inl [65, 7]), none)",
+    "Res.ok (Except.ok (RbV.Gen.SrcFxSelfTest2.Tag.A), some (Sum.inr [9, 7]), none)",
+    "Res.ok (Except.ok (RbV.Gen.SrcFxSelfTest2.Tag.B), none, none)",
+    "Res.ok (some 9, some (Sum.inr [7]), none)",
+]
+
 # (statement text placed in `fn f(&mut self, s: &str) -> io::Result<()> { … }`, substring expected in the refusal)
 SELFTEST_REFUSED = [
     ("let x = s.find(char::is_whitespace); Ok(())", "method `.find"),
@@ -2082,7 +2175,14 @@ def selftest(with_lean):
             if not re.search(expect, msgs[0]):
                 raise SystemExit("selftest: `%s` refused for another reason: %s" % (stmt, msgs[0]))
             n_ref += 1
-    print("rs2lean_genfx selftest: 4 functions translated deterministically, %d refusals as expected" % n_ref)
+    text3, _ = translate_unit(_Src(SELFTEST2_RS, "src/selftest.rs"), SELFTEST2_UNIT, fail)
+    text4, _ = translate_unit(_Src(SELFTEST2_RS, "src/selftest.rs"), SELFTEST2_UNIT, fail)
+    if text3 != text4:
+        raise SystemExit("selftest: translation of the second unit is not deterministic")
+    for need in ("| 97 | 65 =>", "Sum.inl (xNew", "let inner := some ((Sum.inr it))", "(err.kind == \"UnexpectedEof\")"):
+        if need not in text3:
+            raise SystemExit("selftest: expected `%s` in the translation of the second unit" % need)
+    print("rs2lean_genfx selftest: 4 + 3 functions translated deterministically, %d refusals as expected" % n_ref)
     if with_lean:
         import subprocess, tempfile
         root = os.path.join(os.path.dirname(os.path.abspath(__file__)), "..", "lean")
@@ -2099,7 +2199,20 @@ def selftest(with_lean):
         for exp in SELFTEST_EXPECT:
             if " ".join(exp.split()) not in out:
                 raise SystemExit("selftest: expected `%s` in the evaluation output:\n%s" % (exp, r.stdout[-3000:]))
-        print("rs2lean_genfx selftest: compiled and evaluated with lean (%d values as expected)" % len(SELFTEST_EXPECT))
+        d = tempfile.mkdtemp(prefix="genfx-selftest-", dir=os.environ.get("GENFX_TMP", "/var/tmp"))
+        p = os.path.join(d, "SelfTest2.lean")
+        with open(p, "w", encoding="utf8") as fh:
+            fh.write(text3 + SELFTEST2_EVAL)
+        r = subprocess.run(["lake", "env", "lean", p], cwd=root, stdout=subprocess.PIPE, stderr=subprocess.STDOUT, text=True, timeout=600)
+        out = " ".join(r.stdout.split())
+        shutil.rmtree(d, ignore_errors=True)
+        if r.returncode != 0:
+            raise SystemExit("selftest: lean failed on the second unit:\n" + r.stdout[-3000:])
+        for exp in SELFTEST2_EXPECT:
+            if " ".join(exp.split()) not in out:
+                raise SystemExit("selftest: expected `%s` in the evaluation output of the second unit:\n%s" % (exp, r.stdout[-3000:]))
+        print("rs2lean_genfx selftest: compiled and evaluated with lean (%d + %d values as expected)"
+              % (len(SELFTEST_EXPECT), len(SELFTEST2_EXPECT)))
 
 
 def main():
